@@ -1080,7 +1080,7 @@ impl Property for C10 {
         "history_steps_checked"
     }
     fn rule(&self) -> &'static str {
-        "one seeded history = Framebuffer type (7 raw widths x 2 data orders x 8 sizes x exact / +3 byte buffer with seeded tail) + 1..12 steps: set_pixel, draw_iter / fill_contiguous / fill_solid / clear (the framebuffer inherits the three defaults) and drawables, directly or through an adapter stack, with points inside, on the edge, negative, aliasing after truncation and at i32 extremes; XOR of seeded bits into stored bytes via data_mut(); draw of as_image() onto a simulated device. After every step: pixel(p) == reference map on the box plus margin and None at extreme points, tail bytes untouched, data() unchanged by a step without in-range write, as_image() == ImageRaw over the used prefix. distinct = 64-bit hash of the decoded history; non-trivial = at least one in-range pixel written"
+        "one seeded history = Framebuffer type (7 raw widths x 2 data orders x 8 sizes x exact / +3 byte buffer with seeded tail) + 1..12 steps: set_pixel, draw_iter / fill_contiguous / fill_solid / clear (the framebuffer inherits the three defaults) and drawables, directly or through an adapter stack, with points inside, on the edge, negative, aliasing after truncation and at i32 extremes; XOR of seeded bits into stored bytes via data_mut(); draw of as_image() onto a simulated device (whole / shifted so that rows and columns are hidden / a sub_image of it / through a clipped target; consumers incl. nth-skipping and next + for_each). After every step: pixel(p) == reference map on the box plus margin and None at extreme points, tail bytes untouched, data() unchanged by a step without in-range write, as_image() == ImageRaw over the used prefix. distinct = 64-bit hash of the decoded history; non-trivial = at least one in-range pixel written"
     }
     fn assumptions(&self) -> Vec<&'static str> {
         vec![
